@@ -26,6 +26,8 @@ type Clause struct {
 	// Assumed: a postcondition given to callers but not checked against the body ("assumes": part of a stated model,
 	// listed in the evidence as an assumption)
 	Assumed bool
+	// Checked: a postcondition of a trusted "checkcalls" contract that IS checked against the body ("proves")
+	Checked bool
 }
 
 type LoopSpec struct {
@@ -56,6 +58,7 @@ type Contract struct {
 	Uses        []string // axioms/lemmas to include
 	Trusted     bool     // contract assumed, body not verified (listed)
 	CheckCalls  bool     // trusted, but callee preconditions inside the body are checked
+	TrustCalls  bool     // checkcalls variant: the body is walked only for its "proves" clauses; callee preconditions are assumed
 	Inline      bool     // always inline, never modular
 	Frame       bool     // check stores against modifies (frame obligations)
 	FrameP      []string
@@ -223,8 +226,8 @@ func (cs *ContractSet) loadFile(path string) error {
 }
 
 var keywords = map[string]bool{"callback": true, "func": true, "extern": true, "iface": true, "lemmafn": true, "spec": true, "axiom": true, "lemma": true, "ghost": true, "ghostgroup": true,
-	"requires": true, "ensures": true, "assumes": true, "modifies": true, "nopanic": true, "loop": true, "props": true, "results": true,
-	"params": true, "use": true, "decreases": true, "ghostparams": true, "callsite": true, "sets": true, "trusted": true, "checkcalls": true, "pure": true, "inline": true, "frame": true}
+	"requires": true, "ensures": true, "assumes": true, "proves": true, "modifies": true, "nopanic": true, "loop": true, "props": true, "results": true,
+	"params": true, "use": true, "decreases": true, "ghostparams": true, "callsite": true, "sets": true, "trusted": true, "checkcalls": true, "provesonly": true, "pure": true, "inline": true, "frame": true}
 
 func startsWithKeyword(s string) bool {
 	w, _ := splitWord(s)
@@ -400,6 +403,12 @@ func (cs *ContractSet) addClause(c *Contract, w, rest string, line int, file str
 		// invariants needed for them) are obligations; its own postconditions and frame stay assumed
 		c.Trusted = true
 		c.CheckCalls = true
+	case "provesonly":
+		// trusted contract whose body is walked only for its "proves" clauses (and the loop invariants they need):
+		// callee preconditions inside the body are assumed, its other postconditions and its frame stay assumed
+		c.Trusted = true
+		c.CheckCalls = true
+		c.TrustCalls = true
 	case "inline":
 		c.Inline = true
 	case "pure":
@@ -430,6 +439,13 @@ func (cs *ContractSet) addClause(c *Contract, w, rest string, line int, file str
 		if err != nil {
 			return err
 		}
+		c.Ensures = append(c.Ensures, cl)
+	case "proves":
+		cl, err := mk("ensures")
+		if err != nil {
+			return err
+		}
+		cl.Checked = true
 		c.Ensures = append(c.Ensures, cl)
 	case "assumes":
 		cl, err := mk("ensures")
